@@ -60,6 +60,9 @@ def gen_cases(tier, seed):
         cases.extend(tri)
         cases.extend(adj)
         nrand, nconst = 30000, 20000
+    from vf.gen import seeds as _seeds
+    for tag, src in _seeds.VERSION_SENSITIVE + _seeds.PY2_SEEDS + _seeds.all_seeds():
+        cases.append({'shape': 'seed:' + tag, 'src': src, 'all_interpreters': True})
     cases.extend(exprgen.random_cases(seed, nrand, depth=6))
     cases.extend(constgen.const_cases(seed, nconst))
     for c in cases:
@@ -103,7 +106,7 @@ def main(tier, seed):
         cs = list(cases)
         if tier == 'quick' and version != '3.12-venv':
             # other interpreters get a rotating third of the generated stream + a corpus sample
-            cs = [c for i, c in enumerate(cs) if (i + hash(version) + seed) % 3 == 0]
+            cs = [c for i, c in enumerate(cs) if (i + len(version) + seed) % 3 == 0 or c.get('all_interpreters')]
         cs = cs + corpus_cases(tier, version, seed)
         stats = {'cases': 0, 'parsed': 0, 'violations': 0}
 
